@@ -30,13 +30,13 @@ ASSUMPTIONS = [
 ]
 TIMEOUT = {"quick": 400, "thorough": 2400}
 REQUIRED = {"advance_calls": 150, "advance:m=0": 20, "advance:not_multiple_of_100": 80, "pool_runs": 16, "pool_chains_compared": 40,
-            "run_for_runs": 60, "run_for:slow_steps": 15}
+            "run_for_runs": 60, "run_for:slow_steps": 15, "advance:interrupted": 10, "tempering_advances": 12}
 
 
 def jobs(tier, seed):
     n_jobs = 16 if tier == "quick" else 32
     out = [{"name": f"adv-{j}", "seed": seed, "j": j, "n_programs": 10 if tier == "quick" else 70,
-             "n_pools": 2 if tier == "quick" else 8, "n_timed": 8 if tier == "quick" else 50} for j in range(n_jobs)]
+             "n_pools": 2 if tier == "quick" else 8, "n_timed": 8 if tier == "quick" else 50, "n_pt": 1 if tier == "quick" else 3} for j in range(n_jobs)]
     if tier == "thorough":
         out.append({"name": "repo-tests", "seed": seed, "j": 999, "mode": "repo_tests"})
     return out
@@ -101,7 +101,7 @@ def run_job(job, rec):
     for c in range(job["n_programs"]):
         kind = mc.KINDS[(c + job["j"]) % len(mc.KINDS)]
         d = int(rng.choice([1, 2, 3, 4]))
-        target = mc.GaussTarget(np.zeros(d), np.eye(d))
+        target = mc.Interruptible(mc.GaussTarget(np.zeros(d), np.eye(d)))
         bounds = (np.full(d, -4.0), np.full(d, 4.0)) if (kind in ("pca", "hmc", "ensemble") and rng.random() < 0.4) else None
         ch = guarded(mc.make_sampler, kind, target, rng.normal(size=d) * 0.3, rng, grad=target.grad, bounds=bounds,
                      display_progress=bool(rng.random() < 0.15), seed=int(rng.integers(2**31)))
@@ -155,6 +155,47 @@ def run_job(job, rec):
                       lambda: f"{kind}: after {op}({m}) chain_length / stored samples / stored log-probabilities = {got}, expected {cur} each", pctx)
             if got != (cur, cur, cur):
                 break
+        else:
+            # an advance interrupted from inside the posterior (Ctrl-C): whatever was completed is stored completely - the reported length, the
+            # stored samples and the stored log-probabilities still agree, and a later advance(m) adds exactly m
+            if rng.random() < 0.35 and not (kind == "ensemble" and ch.sample is None):
+                target.arm(int(rng.integers(1, 50)))
+                try:
+                    ch.advance(6 if kind == "ensemble" else 40)
+                except mc.InjectedInterrupt:
+                    rec.count("advance:interrupted")
+                except Exception as exc:  # noqa: BLE001
+                    rec.violation("raised", f"{kind}: advance raised {exc!r}", ctx)
+                    continue
+                finally:
+                    target.disarm()
+                got = guarded(lengths, ch, kind)
+                ok_i = (not isinstance(got, Raised)) and got[0] == got[1] == got[2] and got[0] >= cur
+                rec.check(ok_i, "wrong-number-of-samples",
+                          lambda: f"{kind}: after an interrupted advance chain_length / stored samples / stored log-probabilities = {got!r} (there were {cur} before it)", ctx)
+                if ok_i:
+                    m2 = int(rng.integers(1, 8))
+                    r2 = guarded(ch.advance, m2)
+                    got2 = guarded(lengths, ch, kind)
+                    want2 = got[0] + m2 * per
+                    rec.check((not isinstance(r2, Raised)) and (not isinstance(got2, Raised)) and got2 == (want2, want2, want2), "wrong-number-of-samples",
+                              lambda: f"{kind}: advance({m2}) after an interrupted advance gives chain_length / samples / log-probabilities = {got2!r}, expected {want2}", ctx)
+
+    # ------------------------------------------------ chains advanced together under parallel tempering: every chain by the requested number of steps
+    from vmon.props import c08
+    from vmon.rec import OnlyKeys
+
+    for c in range(job.get("n_pt", 1)):
+        sp = c08.make_spec(mk_rng(job["seed"], "C15-pt", job["j"], c), job["j"], c)
+        n_ = sp["n"]
+        si = int(rng.choice([1, 2, 5]))
+        nn = [50 * si, 50 * si + int(rng.integers(1, si + 1)), int(rng.integers(0, 40)), 100 * si + 1][int(rng.integers(4))]
+        sp["program"] = [("advance", (int(nn), si)), ("advance", (int(rng.integers(0, 12)), int(rng.choice([1, 3, 10]))))]
+        pctx = {"tempering": c, "chains": n_, "program": sp["program"]}
+        rec.context = pctx
+        rec.count("tempering_advances")
+        view = OnlyKeys(rec, {"advance-wrong-number-of-steps", "raised", "returned-chain-incomplete"}, prefix="pt:")
+        c08.execute(sp, {"name": "unperturbed"}, view, monitor=True, ctx=pctx)
 
     # ------------------------------------------------ pool vs serial twins
     for c in range(job["n_pools"]):
